@@ -1,5 +1,6 @@
 // C11 conformance harness: a real muscle::Thread (owner <-> internal thread Message queues) under the controlled scheduler.
 //   th explore <iterations> <seed> <sockets 0|1> <report.ndjson> [tracefile [ntraces]]
+//   th free    <iterations> <seed> <sockets 0|1> <report.ndjson>       (no scheduler: real blocking, real signals; see below)
 // Seeded random owner programs (sends before the start, start, sends mixed with polls, blocking waits for replies that are
 // certain to come, shutdown + join, optional restart), an optional extra sender thread, the internal thread echoing every
 // Message (what+100); every hooked operation is a pre-emption point.  The ChanAbs monitor checks exactly-once / in-order in
@@ -201,9 +202,155 @@ static void Judge()
    if (M.replies != expReplies) { snprintf(b, sizeof(b), "owner received %zu replies, expected %zu in handling order", M.replies.size(), expReplies.size()); M.V(b); }
 }
 
+// ------------------------------------------------------------------------------------------------------
+// free-running mode: no scheduler.  Real blocking in select() / the real WaitCondition, real memory ordering, timing noise at the hooks,
+// real signals (a no-op SIGUSR1 handler without SA_RESTART) interrupting the internal thread's select().  The monitor is the same
+// ChanAbs (the Enqueue events are emitted inside the queue critical sections, so their order is the queue order); lost wake-ups show
+// as "a receiver had a Message queued for seconds and did not take it" (watchdog), never by timing alone.
+#include <atomic>
+#include <chrono>
+#include <signal.h>
+#include <pthread.h>
+static std::atomic<long> f_progress(0); static std::atomic<bool> f_done(false); static std::atomic<unsigned long> f_itid(0); static std::atomic<int> f_handledN(0);
+static std::mutex f_vm; static void FV(const std::string & s) {std::lock_guard<std::mutex> g(f_vm); M.V(s);}
+static thread_local uint32_t f_rng = 1;
+static inline uint32_t FR() {f_rng ^= f_rng << 13; f_rng ^= f_rng >> 17; f_rng ^= f_rng << 5; return f_rng;}
+static int NoiseYield(int, const void *, long) {const uint32_t r = FR()%12; if (r == 0) std::this_thread::yield(); else if (r == 1) {for (volatile int i=0; i<300; i++) {}} return 0;}
+static std::atomic<uint64_t> f_nonEmptySince[2];     // when the queue last became non-empty (0 = it is empty); written with the queue's lock held
+static void FreeEvent(const char * name, const void *, long a0, long a1, long a2, long a3)
+{
+   // both events are emitted with the queue's lock held: per direction they are serialised
+   if (!strcmp(name, "Dequeue")) {if (a2 == 0) f_nonEmptySince[(a0 == 0) ? 0 : 1] = 0; return;}
+   if (strcmp(name, "Enqueue")) return;
+   const uint32 m = a3 ? tl_curMsg : 0; const int d = (a0 == 0) ? 0 : 1;
+   if (d == 0) {M.enqInt.push_back(m); if (m == 0) M.nullQueued = true;} else M.enqOwn.push_back(m);
+   if (a1 == 1) f_nonEmptySince[d] = GetRunTime64();
+   f_progress++;
+}
+// a wait with a LONG deadline returned B_TIMED_OUT: the queue was empty when the call looked (or it would have returned the Message), so
+// if it has been non-empty for seconds since, the sleeping receiver was not woken for it
+static void JudgeLongTimeout(int d, const char * who)
+{
+   const uint64_t since = f_nonEmptySince[d].load();
+   if ((since)&&(GetRunTime64() > since+SecondsToMicros(3))) FV(std::string("LOST WAKE-UP (free-running): ")+who+" slept in a wait with a deadline for more than 3 s while a Message was queued for it, and returned B_TIMED_OUT");
+}
+static void NoopHandler(int) {}
+class FreeEchoThread : public Thread {
+public:
+   FreeEchoThread(bool sockets, bool timedLoop) : Thread(sockets), _timedLoop(timedLoop) {}
+   bool _timedLoop;
+protected:
+   virtual void InternalThreadEntry()
+   {
+      f_rng = 0x9e3779b9u ^ (uint32_t) f_progress.load(); if (f_rng == 0) f_rng = 1;
+      f_itid = (unsigned long) pthread_self();
+      if (!_timedLoop) {Thread::InternalThreadEntry(); f_itid = 0; return;}
+      while(true) {
+         MessageRef m; uint32 left = 0;
+         const bool longWait = (FR()%2) == 0;
+         const status_t r = WaitForNextMessageFromOwner(m, GetRunTime64()+(longWait ? SecondsToMicros(6) : MillisToMicros(20+(FR()%60))), &left);
+         if (r.IsError()) {if (r == B_TIMED_OUT) {if (longWait) JudgeLongTimeout(0, "the internal thread"); continue;} else break;}
+         if (MessageReceivedFromOwner(m, left).IsError()) break;
+      }
+      f_itid = 0;
+   }
+   virtual status_t MessageReceivedFromOwner(const MessageRef & m, uint32)
+   {
+      if (m() == NULL) return B_SHUTTING_DOWN;
+      M.handled.push_back(m()->what); f_handledN++;
+      tl_curMsg = m()->what+100;
+      (void) SendMessageToOwner(GetMessageFromPool(m()->what+100));
+      f_progress++;
+      return B_NO_ERROR;
+   }
+};
+struct FreePlan {int rounds, nMsgs, preSends, nExtra; bool timedLoop, signals; uint32 rnd;};
+static FreePlan FP; static FreeEchoThread * f_t = NULL; static std::atomic<long> f_ownerSent(0);
+static void FreeTake(int mode)     // 0 poll, 1 wait for ever (only when a reply is certain), 2 wait with a real deadline
+{
+   MessageRef r; status_t s;
+   if (mode == 0) s = f_t->GetNextReplyFromInternalThread(r, 0);
+   else if (mode == 1) s = f_t->GetNextReplyFromInternalThread(r, MUSCLE_TIME_NEVER);
+   else if (mode == 3) s = f_t->GetNextReplyFromInternalThread(r, GetRunTime64()+SecondsToMicros(6));
+   else s = f_t->GetNextReplyFromInternalThread(r, GetRunTime64()+MillisToMicros(1+(FR()%40)));
+   if ((mode == 3)&&(s == B_TIMED_OUT)) JudgeLongTimeout(1, "the owner");
+   if (s.IsOK()) {M.replies.push_back(r()->what); f_progress++;}
+   else if (s != B_TIMED_OUT) FV(std::string("GetNextReplyFromInternalThread returned ")+s());
+}
+static void FreeOwner()
+{
+   f_rng = FP.rnd|1;
+   long sentTotal = 0;
+   for (int round=1; round<=FP.rounds; round++) {
+      int sent = 0;
+      if (round == 1) for (; sent<FP.preSends; sent++) {const uint32 m = 1000+sent+1; tl_curMsg = m; (void) f_t->SendMessageToInternalThread(GetMessageFromPool(m)); sentTotal++;}
+      if (f_t->StartInternalThread().IsError()) FV("StartInternalThread failed");
+      while (sent < FP.nMsgs) {
+         const uint32 m = round*1000+sent+1; sent++; tl_curMsg = m; (void) f_t->SendMessageToInternalThread(GetMessageFromPool(m)); sentTotal++;
+         const uint32 k = FR()%8;
+         if (k == 0) FreeTake(0);
+         else if ((k == 1)&&(sentTotal > (long) M.replies.size())) FreeTake((FR()%2) ? 1 : 3);
+         else if (k == 2) FreeTake(2);
+         else if (k == 3) std::this_thread::yield();
+         else if ((k == 4)&&(FP.signals)&&(f_handledN.load() > 0)) {const unsigned long tid = f_itid.load(); if (tid) (void) pthread_kill((pthread_t) tid, SIGUSR1);}    // the thread is alive: it is joined only below, by us
+      }
+      if (FR()%2) while (sentTotal > (long) M.replies.size()) FreeTake(1+(int)(FR()%3));
+      tl_curMsg = 0;
+      if (FR()%3 == 0) {f_t->ShutdownInternalThread(false); if (FR()%2) FreeTake(0); (void) f_t->WaitForInternalThreadToExit();}
+      else f_t->ShutdownInternalThread(true);
+      f_progress++;
+   }
+   for (int i=0; i<100000; i++) {MessageRef r; if (f_t->GetNextReplyFromInternalThread(r, 0).IsOK()) M.replies.push_back(r()->what); else break;}
+   f_done = true;
+}
+static void FreeSender()
+{
+   for (int k=0; k<FP.nExtra; k++) {
+      if (M.nullQueued) break;
+      const uint32 m = 500000+k+1; tl_curMsg = m;
+      (void) f_t->SendMessageToInternalThread(GetMessageFromPool(m));
+      if ((k%4) == 0) std::this_thread::yield();
+   }
+}
+static int Free(uint32 iters, uint32 seed0, bool sockets, const char * outFile)
+{
+   FILE * out = fopen(outFile, "w"); if (!out) return 2;
+   muscle::verif::YieldFuncRef() = NoiseYield; muscle::verif::EventFuncRef() = FreeEvent;
+   struct sigaction sa; memset(&sa, 0, sizeof(sa)); sa.sa_handler = NoopHandler; sigemptyset(&sa.sa_mask); sa.sa_flags = 0; (void) sigaction(SIGUSR1, &sa, NULL);
+   long execs = 0, violated = 0, hung = 0, msgs = 0;
+   for (uint32 it=0; (it<iters)&&(violated < 6)&&(hung == 0); it++) {
+      const uint32 seed = seed0*1000003u+it; std::mt19937 gen(seed*2654435761u+11);
+      FP.rounds = 1+(int)(gen()%2); FP.nMsgs = 1+(int)(gen()%60); FP.preSends = (int)(gen()%4) % (FP.nMsgs+1); FP.nExtra = (int)(gen()%3)*20; FP.timedLoop = (gen()%3) == 0; FP.signals = (sockets)&&((gen()%2) == 0); FP.rnd = gen();
+      M.Reset(); f_progress = 0; f_done = false; f_itid = 0; f_handledN = 0; f_nonEmptySince[0] = 0; f_nonEmptySince[1] = 0;
+      f_t = new FreeEchoThread(sockets, FP.timedLoop);
+      std::thread owner(FreeOwner); std::thread sender; if (FP.nExtra > 0) sender = std::thread(FreeSender);
+      long last = -1; int idle = 0;
+      while (!f_done.load()) { std::this_thread::sleep_for(std::chrono::milliseconds(2)); const long p = f_progress.load(); if (p != last) {last = p; idle = 0;} else if (++idle > 15000) break; }
+      execs++;
+      const bool stuck = !f_done.load();
+      if (stuck) {hung++; FV("STRANDED (free-running): the owner made no progress for 30 s - a receiver was not woken for a queued Message, or the shutdown does not complete");}
+      else { owner.join(); if (sender.joinable()) sender.join(); Judge(); msgs += (long) M.handled.size(); }
+      if (!M.violations.empty()) {
+         violated++;
+         mj::Value rec = mj::Value::Obj(); rec.set("free", mj::Value::Bool(true)).set("seed", mj::Value::Int(seed)).set("iteration", mj::Value::Int(it)).set("sockets", mj::Value::Bool(sockets));
+         mj::Value va = mj::Value::Arr(); for (size_t k=0; k<M.violations.size(); k++) va.push(mj::Value::Str(M.violations[k])); rec.set("violations", va);
+         mj::Value pl = mj::Value::Obj(); pl.set("msgs", mj::Value::Int(FP.nMsgs)).set("pre_start_sends", mj::Value::Int(FP.preSends)).set("rounds", mj::Value::Int(FP.rounds)).set("extra_sender_msgs", mj::Value::Int(FP.nExtra)).set("internal_loop_waits_with_deadline", mj::Value::Bool(FP.timedLoop)).set("signals", mj::Value::Bool(FP.signals)); rec.set("plan", pl);
+         rec.set("handled_count", mj::Value::Int((int64_t) M.handled.size())).set("replies_count", mj::Value::Int((int64_t) M.replies.size()));
+         fprintf(out, "%s\n", mj::ToString(rec).c_str());
+      }
+      if (stuck) {owner.detach(); if (sender.joinable()) sender.detach();} else delete f_t;
+   }
+   mj::Value sum = mj::Value::Obj();
+   sum.set("summary", mj::Value::Bool(true)).set("executions", mj::Value::Int(execs)).set("violated", mj::Value::Int(violated)).set("stranded", mj::Value::Int(hung)).set("messages_handled", mj::Value::Int(msgs));
+   fprintf(out, "%s\n", mj::ToString(sum).c_str()); fclose(out); printf("%s\n", mj::ToString(sum).c_str()); fflush(stdout);
+   if (hung) _exit(0);
+   return 0;
+}
+
 int main(int argc, char ** argv)
 {
    CompleteSetupSystem css;
+   if ((argc >= 6)&&(!strcmp(argv[1], "free"))) return Free((uint32) atol(argv[2]), (uint32) atol(argv[3]), atoi(argv[4]) != 0, argv[5]);
    vs::Install();
    if ((argc < 6)||(strcmp(argv[1], "explore"))) {fprintf(stderr, "usage: th explore <iters> <seed> <sockets 0|1> <report> [trace [n]]\n"); return 2;}
    const uint32 iters = (uint32) atol(argv[2]), seed0 = (uint32) atol(argv[3]); const bool sockets = atoi(argv[4]) != 0;
